@@ -23,6 +23,7 @@ type e2eServer struct {
 	cur    atomic.Pointer[probe]
 	hs     atomic.Pointer[http.Server]
 	client *http.Client
+	closer func() // bare net/http servers (crywrite_test.go)
 }
 
 func freePort() (int, error) {
@@ -56,6 +57,12 @@ func startE2E(cfg jwtCfg, confIdx []int, tol time.Duration) (*e2eServer, error) 
 // starts it; a port collision (other processes pick ports at the same time) is
 // retried, anything else is reported to the caller.
 func startServer(add func(srv *rest.Server, mk func(path string) []rest.Route)) (*e2eServer, error) {
+	return startServerWith(nil, nil, add)
+}
+
+// startServerWith: confMod (may be nil) changes the configuration (middlewares ...) after the
+// defaults of startServer were set; opts are handed to rest.NewServer.
+func startServerWith(confMod func(conf *rest.RestConf), opts []rest.RunOption, add func(srv *rest.Server, mk func(path string) []rest.Route)) (*e2eServer, error) {
 	var lastErr error
 	for attempt := 0; attempt < 5; attempt++ {
 		port, err := freePort()
@@ -71,7 +78,10 @@ func startServer(add func(srv *rest.Server, mk func(path string) []rest.Route)) 
 		conf.Timeout = 0
 		conf.MaxBytes = 1 << 20
 		conf.Middlewares.Recover = true // everything else off: no shedding / breaker / timeout answers under CPU load
-		srv, err := rest.NewServer(conf)
+		if confMod != nil {
+			confMod(&conf)
+		}
+		srv, err := rest.NewServer(conf, opts...)
 		if err != nil {
 			return nil, err
 		}
@@ -125,7 +135,7 @@ func startServer(add func(srv *rest.Server, mk func(path string) []rest.Route)) 
 			}
 			continue
 		}
-		s.client = &http.Client{Timeout: 60 * time.Second, Transport: &http.Transport{DisableCompression: true, MaxIdleConnsPerHost: 2},
+		s.client = &http.Client{Timeout: 300 * time.Second, Transport: &http.Transport{DisableCompression: true, MaxIdleConnsPerHost: 2},
 			CheckRedirect: func(*http.Request, []*http.Request) error { return http.ErrUseLastResponse }}
 		return s, nil
 	}
@@ -135,6 +145,9 @@ func startServer(add func(srv *rest.Server, mk func(path string) []rest.Route)) 
 func (s *e2eServer) stop() {
 	if hs := s.hs.Load(); hs != nil {
 		hs.Close()
+	}
+	if s.closer != nil {
+		s.closer()
 	}
 	if tr, ok := s.client.Transport.(*http.Transport); ok {
 		tr.CloseIdleConnections()
@@ -147,11 +160,13 @@ func (s *e2eServer) do(req *http.Request, p *probe) (status, error) {
 	defer s.cur.Store(nil)
 	resp, err := s.client.Do(req)
 	if err != nil {
+		s.client.CloseIdleConnections()
 		return status{}, err
 	}
 	body, err := io.ReadAll(resp.Body)
 	resp.Body.Close()
 	if err != nil {
+		s.client.CloseIdleConnections()
 		return status{}, err
 	}
 	return status{code: resp.StatusCode, body: body}, nil
@@ -292,6 +307,15 @@ func e2eCase(c *kit.Case) {
 			}
 			e.run(s, respBytes(r))
 			n++
+		}
+		if strict {
+			// unusual timestamps (short list) through the server's route as well
+			te := *e
+			te.exactTime, te.dead, te.born = true, false, time.Now()
+			rt := r.Split("e2e-time")
+			probes := gateTimeProbes(rt, te.born.Unix(), te.tolLo, te.tolHi, kit.N(10, 40))
+			runTimeProbes(rt, &te, prefix, probes, "e2e")
+			n += len(probes)
 		}
 		e.t["e2e_cs_requests"] += int64(n)
 		e.t.flush(c)
